@@ -161,11 +161,19 @@ theorem assign_step (lp : Bool) (ret : Option Ty) (S : STy) (op : AssignOp) (loc
     · exact compound _ rt hbin (okW_ok h4).1 (Or.inr (binTy_compound _ cty tv rt hbin (by simp)))
     · cases h4
 
+theorem mem_asTypeL : ∀ (vs : List Val) (ty : Ty), ty ∈ asTypeL vs → ∃ v ∈ vs, v.asType = ty
+  | [], ty, h => by simp [asTypeL] at h
+  | v :: vs, ty, h => by
+    simp only [asTypeL, List.mem_cons] at h
+    rcases h with rfl | h
+    · exact ⟨v, by simp, rfl⟩
+    · obtain ⟨w, hw, e⟩ := mem_asTypeL vs ty h; exact ⟨w, by simp [hw], e⟩
+
 theorem lookup_single (fr : Frame) (x : String) : Env.lookup [fr] x = frameLookup x fr := by
   simp only [Env.lookup]
   cases frameLookup x fr <;> rfl
 
-theorem step_E (f : Nat) (hE : PE f) (hL : PL f) (hS : PS f) (hA : PA f) (hO : PO f) (hF : PF f) (hLp : PLp f) (hW : PW f) (hWS : PWS f) (hFo : PFo f) :
+theorem step_E (f : Nat) (hE : PE f) (hL : PL f) (hS : PS f) (hA : PA f) (hO : PO f) (hF : PF f) (hLp : PLp f) (hW : PW f) (hWS : PWS f) (hFo : PFo f) (hCol : PCol f) :
     PE (f + 1) := by
   intro lp ret S g env e T σ henv hg hr hst ht
   cases e with
@@ -936,6 +944,38 @@ theorem step_E (f : Nat) (hE : PE f) (hL : PL f) (hS : PS f) (hA : PA f) (hO : P
           simpa [Env.insert] using this
         exact hFo lp ret S _ _ x itv body b t T0 σ1 henv2 (gwf_cons g "$iter" _ hg wti) hr hst hitv (by simpa using hb) wt htb
     all_goals cases h2
+  | post op e =>
+    cases op <;> simp only [tyS] at ht
+    case collect =>
+      obtain ⟨ti, hti, h2⟩ := bind_ok ht
+      have wti := tyS_wf lp ret g e ti hti
+      simp only [eval]
+      apply outP_bind lp ret S (fun S' v => VT S' ti v) _ _ _ σ (hE lp ret S g env e ti σ henv hg hr hst hti)
+      intro itv σ1 S hle hst _ hitv
+      replace henv := envOk_mono hle henv
+      split at h2
+      · rename_i b t
+        split at h2
+        · cases h2
+        · rename_i hb
+          have e1 := eq_of_eqv_bool (by simpa using hb)
+          subst e1
+          rw [(okW_ok h2).1]
+          have wt : wf t = true := by
+            simp only [wf, wfL, Bool.and_eq_true] at wti
+            exact wti.2.2.1
+          apply outP_bind lp ret S (fun S' vs => ∀ v ∈ vs, VT S' t v) _ _ _ σ1 (hCol lp ret S itv [] t σ1 hst hitv wt (by simp))
+          intro vs σ2 S hle hst _ hvs
+          apply outP_pure _ _ _ _ _ _ hst
+          have hgood : ∀ v ∈ vs, Good S v := fun v hv => (hvs v hv).2
+          refine ⟨?_, good_mkArray vs hgood⟩
+          simp only [Val.mkArray, asType, C01.sub_arr]
+          refine concatL_least (asTypeL vs) t (wfL_asTypeLG vs hgood) ?_
+          intro ty hty
+          obtain ⟨v, hv, rfl⟩ := mem_asTypeL vs ty hty
+          exact (hvs v hv).1
+      all_goals cases h2
+    all_goals cases ht
   | brk =>
     simp only [tyS] at ht
     split at ht
